@@ -329,6 +329,10 @@ class CThread:
     def is_alive(self):
         return self._t is not None and not self._t.done
 
+    @property
+    def ident(self):
+        return self._t.real.ident if self._t is not None else None
+
     def join(self, timeout=None):
         s = sched()
         if self._t is None:
